@@ -34,6 +34,12 @@ Theorem C08_current_wrapper_facts_ok :
   f_direct_ro current_facts = true /\ geth_charges_required_gas_first = true.
 Proof. vm_compute. repeat split; reflexivity. Qed.
 
+(** StateDB.SavePrecompileCalledJournalChange appends the multistore snapshot to the journal on EVERY call
+    (nothing before the append can leave the method, the append is not inside a branch): each precompile call
+    of a transaction has a journal entry of its own for the wrapper's RevertToSnapshot to find *)
+Theorem C08_current_snapshot_every_call : f_snap_each_call current_facts = true.
+Proof. vm_compute. reflexivity. Qed.
+
 (** the property for the tree as it is now: every body, every input *)
 Theorem C08_holds_for_current_tree :
   forall (St : Type) (body after_mint : mid -> list arg -> St -> Z -> bres St) (transfer : St -> Z -> St) p k value gas inp st,
@@ -75,3 +81,49 @@ Proof.
                C08_current_guards_ok C08_current_panic_guards_ok eq_refl QB W) ].
 Qed.
 Print Assumptions C08_nested_static_status_on_current_tree.
+
+(** … and for a call made after ANY history of the same transaction (earlier precompile calls of any kind and
+    outcome, journaled EVM state changes, any journal and call count to start from): every body, every input *)
+Theorem C08_holds_for_current_tree_in_any_tx :
+  forall (Ev Ms : Type) (body after_mint : mid -> list arg -> tst Ev Ms -> Z -> bres (tst Ev Ms))
+         (evm_touch : mid -> list arg -> tst Ev Ms -> bool) (transfer_ev : Ev -> Z -> Ev) pre x0 p k value gas inp,
+    Proofs.query_bodies_readonly (tst Ev Ms) body after_mint -> input_wf inp = true -> 0 <= gas ->
+    let x := tx_run Ev Ms body after_mint evm_touch transfer_ev current_facts pre x0 in
+    let r := call_x Ev Ms body after_mint evm_touch transfer_ev current_facts p k value gas inp x in
+    P k value gas (selected (pc_of current_facts p) inp) (xr_out r) (xr_left r)
+      (st_of Ev Ms (xr_x r) = st_of Ev Ms x)
+      (st_of Ev Ms (xr_x r) = st_of Ev Ms x \/ st_of Ev Ms (xr_x r) = transfer_t Ev Ms transfer_ev (st_of Ev Ms x) value).
+Proof.
+  intros Ev Ms body after_mint evm_touch transfer_ev pre x0 p k value gas inp QB W G.
+  exact (C08_tx_call_satisfies_property Ev Ms body after_mint evm_touch transfer_ev current_facts pre x0 p k value gas inp
+           C08_current_guards_ok C08_current_panic_guards_ok
+           (proj1 (proj2 (proj2 C08_current_wrapper_facts_ok))) C08_current_snapshot_every_call QB W G).
+Qed.
+Print Assumptions C08_holds_for_current_tree_in_any_tx.
+
+Theorem C08_failed_call_leaves_no_state_on_current_tree :
+  forall (Ev Ms : Type) (body after_mint : mid -> list arg -> tst Ev Ms -> Z -> bres (tst Ev Ms))
+         (evm_touch : mid -> list arg -> tst Ev Ms -> bool) (transfer_ev : Ev -> Z -> Ev) pre x0 p k value gas inp,
+    let x := tx_run Ev Ms body after_mint evm_touch transfer_ev current_facts pre x0 in
+    let r := call_x Ev Ms body after_mint evm_touch transfer_ev current_facts p k value gas inp x in
+    is_err (xr_out r) = true ->
+    st_of Ev Ms (xr_x r) = st_of Ev Ms x /\ x_j (xr_x r) = x_j x /\ xr_left r = 0.
+Proof.
+  intros Ev Ms body after_mint evm_touch transfer_ev pre x0 p k value gas inp.
+  exact (C08_failed_call_leaves_no_state_in_tx Ev Ms body after_mint evm_touch transfer_ev current_facts pre x0 p k value gas inp
+           C08_current_snapshot_every_call).
+Qed.
+Print Assumptions C08_failed_call_leaves_no_state_on_current_tree.
+
+Theorem C08_failed_calls_invisible_on_current_tree :
+  forall (Ev Ms : Type) (body after_mint : mid -> list arg -> tst Ev Ms -> Z -> bres (tst Ev Ms))
+         (evm_touch : mid -> list arg -> tst Ev Ms -> bool) (transfer_ev : Ev -> Z -> Ev) ops x0,
+    x_cnt x0 + Z.of_nat (List.length ops) <= f_max_calls current_facts ->
+    P_tx (st_of Ev Ms (tx_run Ev Ms body after_mint evm_touch transfer_ev current_facts ops x0) =
+          st_of Ev Ms (tx_run_drop Ev Ms body after_mint evm_touch transfer_ev current_facts ops x0)).
+Proof.
+  intros Ev Ms body after_mint evm_touch transfer_ev ops x0.
+  exact (C08_failed_calls_invisible_in_tx Ev Ms body after_mint evm_touch transfer_ev current_facts ops x0
+           C08_current_snapshot_every_call).
+Qed.
+Print Assumptions C08_failed_calls_invisible_on_current_tree.
